@@ -972,6 +972,11 @@ SetterEffect(pre, e, post) ==
          OnlyKey(e, "ext", Id(e, "whirlpools_config_extension")) /\ SetField(pre, post, "ext", Id(e, "whirlpools_config_extension"), "badgeAuth", Id(e, "new_token_badge_authority"))
     [] n = "set_token_badge_attribute" ->
          OnlyKey(e, "badge", Id(e, "token_badge")) /\ SetField(pre, post, "badge", Id(e, "token_badge"), "nonTransferablePos", a.value)
+    [] n = "set_config_feature_flag" ->
+         \* the token-badge feature is bit 0 of the config's flags; the other bits and everything else stay
+         LET c == Id(e, "whirlpools_config") f == pre.cfg[c].flags IN
+         /\ \A s_ \in Sections : ChangedKeys(e.diff, s_) \subseteq (IF s_ = "cfg" THEN {c} ELSE {})
+         /\ post.cfg[c] = [pre.cfg[c] EXCEPT !.flags = IF a.enabled THEN (IF f % 2 = 1 THEN f ELSE f + 1) ELSE (IF f % 2 = 1 THEN f - 1 ELSE f)]
     [] n = "set_preset_adaptive_fee_constants" ->
          LET t == Id(e, "adaptive_fee_tier") c == a.constants IN
          /\ OnlyKey(e, "atier", t) /\ t \in DOMAIN post.atier
